@@ -2615,3 +2615,137 @@ Proof.
   destruct (BAL_run w Hb) as (H1 & _ & H3 & H4 & H5 & H6 & H7).
   destruct (arun AFresh w); simpl in *; try discriminate; rewrite ?app_nil_r, ?Nat.add_0_r in *; auto 10.
 Qed.
+
+(* ================================================================== the property, on the log of a whole executor life *)
+Definition starts_of (gp : path) (L : list event) : list nat := idxs ASN (graph_word gp L).
+Definition stops_of (gp : path) (L : list event) : list nat := idxs BPN (graph_word gp L).
+Definition no_leak (L : list event) : Prop := forall gl, ast_leaked (Aof L gl) = false.
+
+Lemma full_log_life pl sp cfg w : exists ev1 f w1 ev2 w2,
+  life pl sp cfg w = (ev1, f, w1, ev2, w2) /\ full_log pl sp cfg w = ev1 ++ ev2.
+Proof.
+  unfold full_log. destruct (life pl sp cfg w) as [[[[ev1 f] w1] ev2] w2]. exists ev1, f, w1, ev2, w2. auto.
+Qed.
+
+Lemma full_log_wf pl sp cfg w : fresh_world w -> LogWf (full_log pl sp cfg w).
+Proof.
+  intro Hf. destruct (full_log_life pl sp cfg w) as (ev1 & f & w1 & ev2 & w2 & Hl & ->).
+  destruct (life_facts _ _ _ _ _ _ _ _ _ Hf Hl) as (W & B & _). split; auto.
+  intros e He. unfold wloc in W. rewrite forallb_forall in W. auto.
+Qed.
+
+Lemma full_log_closed pl sp cfg w : fresh_world w -> no_leak (full_log pl sp cfg w) -> LogClosed (full_log pl sp cfg w).
+Proof.
+  intros Hf Hn. destruct (full_log_life pl sp cfg w) as (ev1 & f & w1 & ev2 & w2 & Hl & E).
+  rewrite E in *. destruct (life_facts _ _ _ _ _ _ _ _ _ Hf Hl) as (_ & _ & C & _). unfold LogClosed. apply C. exact Hn.
+Qed.
+
+Lemma order_thm pl sp cfg w : fresh_world w -> forall gp,
+  exists m c, c <= m /\ starts_of gp (full_log pl sp cfg w) = seq 0 m /\
+              stops_of gp (full_log pl sp cfg w) = rev (seq c (m - c)).
+Proof. intros Hf gp. apply word_order. apply (full_log_wf pl sp cfg w Hf). Qed.
+
+Lemma once_thm pl sp cfg w : fresh_world w -> no_leak (full_log pl sp cfg w) -> forall gp,
+  exists m, starts_of gp (full_log pl sp cfg w) = seq 0 m /\ stops_of gp (full_log pl sp cfg w) = rev (seq 0 m).
+Proof. intros Hf Hn gp. apply word_closed. apply (full_log_closed pl sp cfg w Hf Hn). Qed.
+
+Lemma once_static_thm pl sp cfg w : fresh_world w -> no_stop_faults pl \/ no_start_faults pl -> forall gp,
+  exists m, starts_of gp (full_log pl sp cfg w) = seq 0 m /\ stops_of gp (full_log pl sp cfg w) = rev (seq 0 m).
+Proof. intros Hf Hs. apply once_thm; auto. intro gl. apply never_leaks; auto. Qed.
+
+Lemma leak_persists ev1 ev2 gl :
+  ast_bad (Aof (ev1 ++ ev2) gl) = false -> ast_leaked (Aof ev1 gl) = true -> ast_leaked (Aof (ev1 ++ ev2) gl) = true.
+Proof.
+  unfold Aof. rewrite after_app. intros Hb Hl.
+  assert (E : after (after A0 ev1) ev2 gl = arun (after A0 ev1 gl) (graph_word gl ev2)) by reflexivity.
+  rewrite E in *. destruct (after A0 ev1 gl); try discriminate. apply leaked_sticky in Hb. rewrite Hb. reflexivity.
+Qed.
+
+(* ... no later than the return of run, unless clean-up on error is off and an evaluation error
+   escaped: then at the release of the executor *)
+Lemma by_return_thm pl sp cfg w ev1 f w1 ev2 w2 :
+  fresh_world w -> life pl sp cfg w = (ev1, f, w1, ev2, w2) -> no_leak (ev1 ++ ev2) ->
+  c_cleanup cfg = true \/ (forall fl i, f = Some fl -> f_note fl <> Some (i, PEval)) ->
+  ev2 = [] /\ forall gp, exists m, starts_of gp ev1 = seq 0 m /\ stops_of gp ev1 = rev (seq 0 m).
+Proof.
+  intros Hf Hl Hn Hc. destruct (life_facts _ _ _ _ _ _ _ _ _ Hf Hl) as (_ & B & _ & T).
+  assert (Hn1 : forall gl, ast_leaked (Aof ev1 gl) = false).
+  { intro gl. destruct (ast_leaked (Aof ev1 gl)) eqn:E; auto.
+    pose proof (leak_persists ev1 ev2 gl (B gl) E) as X. rewrite (Hn gl) in X. discriminate X. }
+  destruct (T Hc Hn1) as [-> Hfin]. split; auto. intro gp. apply word_closed. apply Hfin.
+Qed.
+
+Lemma rollback_thm pl sp cfg w : fresh_world w -> forall gp w1 k w2,
+  graph_word gp (full_log pl sp cfg w) = w1 ++ SN SNF k :: w2 ->
+  idxs ASN w1 = seq 0 k /\ idxs BPN w1 = [] /\ idxs ASN w2 = [] /\
+  exists c, c <= k /\ idxs BPN w2 = rev (seq c (k - c)) /\ (no_leak (full_log pl sp cfg w) -> c = 0).
+Proof.
+  intros Hf gp w1 k w2 E. pose proof (full_log_wf pl sp cfg w Hf) as [_ B]. specialize (B gp).
+  rewrite Aof_eq, E in B. destruct (word_failed_start _ _ _ B) as (H1 & H2 & H3 & c & H4 & H5 & H6).
+  repeat split; auto. exists c. repeat split; auto. intro Hn. apply H6. rewrite <- E, <- Aof_eq.
+  apply (full_log_closed pl sp cfg w Hf Hn).
+Qed.
+
+Lemma word_stop_pass_final w1 w2 :
+  ast_final (arun AFresh (w1 ++ SG BPG :: w2)) = true ->
+  exists m, idxs ASN w1 = seq 0 m /\ idxs BPN w1 = [] /\ idxs BPN w2 = rev (seq 0 m).
+Proof.
+  intro Hfin. assert (H : ast_bad (arun AFresh (w1 ++ SG BPG :: w2)) = false).
+  { destruct (arun AFresh (w1 ++ SG BPG :: w2)); auto; discriminate. }
+  destruct (word_stop_pass _ _ H) as (m & A1 & B1 & _). exists m. repeat split; auto.
+  pose proof (prefix_not_bad _ _ _ H) as H1.
+  assert (Ha : arun AFresh w1 = AStarted m).
+  { pose proof (AI_run _ H1) as (A1' & _). rewrite A1 in A1'.
+    assert (H2 : ast_bad (arun AFresh (w1 ++ [SG BPG])) = false).
+    { replace (w1 ++ SG BPG :: w2) with ((w1 ++ [SG BPG]) ++ w2) in H by (rewrite <- app_assoc; reflexivity).
+      eapply prefix_not_bad; eauto. }
+    rewrite arun_snoc in H2. destruct (arun AFresh w1); crush_step H2. simpl in A1'.
+    f_equal. apply (f_equal (@length nat)) in A1'. rewrite !seq_length in A1'. auto. }
+  replace (w1 ++ SG BPG :: w2) with ((w1 ++ [SG BPG]) ++ w2) in * by (rewrite <- app_assoc; reflexivity).
+  assert (Hf : stopfam m (arun AFresh ((w1 ++ [SG BPG]) ++ w2))).
+  { rewrite arun_app in *. apply stopfam_run; auto. rewrite arun_snoc, Ha. reflexivity. }
+  pose proof (AI_run _ H) as (A2 & B2 & _).
+  destruct (arun AFresh ((w1 ++ [SG BPG]) ++ w2)); simpl in Hf, Hfin; try contradiction; try discriminate.
+  subst. simpl in B2. rewrite Nat.sub_0_r in B2. rewrite !idxs_app in B2. simpl in B2. rewrite B1 in B2. exact B2.
+Qed.
+
+Lemma stop_pass_thm pl sp cfg w : fresh_world w -> forall gp w1 w2,
+  graph_word gp (full_log pl sp cfg w) = w1 ++ SG BPG :: w2 ->
+  exists m, idxs ASN w1 = seq 0 m /\ idxs BPN w1 = [] /\
+            (In (SG APG) w2 \/ no_leak (full_log pl sp cfg w) -> idxs BPN w2 = rev (seq 0 m)).
+Proof.
+  intros Hf gp w1 w2 E. pose proof (full_log_wf pl sp cfg w Hf) as [_ B]. specialize (B gp).
+  rewrite Aof_eq, E in B. destruct (word_stop_pass _ _ B) as (m & H1 & H2 & H3).
+  exists m. repeat split; auto. intros [Hin|Hn]; auto.
+  assert (Hfin : ast_final (arun AFresh (w1 ++ SG BPG :: w2)) = true).
+  { rewrite <- E, <- Aof_eq. apply (full_log_closed pl sp cfg w Hf Hn). }
+  destruct (word_stop_pass_final _ _ Hfin) as (m' & H1' & _ & H3').
+  rewrite H1 in H1'. apply (f_equal (@length nat)) in H1'. rewrite !seq_length in H1'. subst. exact H3'.
+Qed.
+
+Lemma lifetime_thm pl sp cfg w : fresh_world w -> forall gp w1 k i w2,
+  k = BEN \/ k = HE ->
+  graph_word gp (full_log pl sp cfg w) = w1 ++ SN k i :: w2 ->
+  In i (idxs ASN w1) /\ ~ In i (idxs BPN w1).
+Proof.
+  intros Hf gp w1 k i w2 Hk E. pose proof (full_log_wf pl sp cfg w Hf) as [_ B]. specialize (B gp).
+  rewrite Aof_eq, E in B. eapply word_eval_in_lifetime; eauto.
+Qed.
+
+Lemma balanced_thm pl sp cfg w : fresh_world w -> no_leak (full_log pl sp cfg w) -> forall gp,
+  let W := graph_word gp (full_log pl sp cfg w) in
+  idxs BSN W = idxs ASN W ++ idxs SNF W /\ idxs BEN W = idxs AEN W /\ idxs BPN W = idxs APN W /\
+  gcnt BSG W = gcnt ASG W + gcnt SGF W /\ gcnt BGE W = gcnt AGE W /\ gcnt BPG W = gcnt APG W.
+Proof.
+  intros Hf Hn gp. apply word_balanced. pose proof (full_log_closed pl sp cfg w Hf Hn gp) as H.
+  rewrite Aof_eq in H. destruct (arun AFresh _); simpl in *; auto; discriminate.
+Qed.
+
+Lemma accepts_thm pl sp cfg w : fresh_world w ->
+  log_wf (full_log pl sp cfg w) = true /\
+  (no_leak (full_log pl sp cfg w) -> lifecycle_ok (full_log pl sp cfg w) = true).
+Proof.
+  intro Hf. split.
+  - apply log_wf_iff. apply full_log_wf; auto.
+  - intro Hn. apply lifecycle_ok_iff. split; [apply full_log_wf|apply full_log_closed]; auto.
+Qed.
